@@ -501,8 +501,13 @@ Print Assumptions C07_judge_quorum_sound.
    that passes [sys_safe]: for EVERY three successful rounds GetCommitReports (outcome xa, state 2) -> GetMessages (xb,
    state 3) -> Filter (xc) of the history, with failed rounds before and between them, and every message mm of a chain
    report r of xc: the clauses (i) (incl. the interval), carried, (b) the report's proof recomputes the agreed root,
-   (c), (ii), (iii) at mm's OWN sequence number, not-costly, (iv) - stated with [quorum] on the observations the
-   implementation accepted in the three rounds (aos1, aos2, aos3), h = the harness's keccak table. *)
+   (c), (ii), (iii), not-costly, (iv) - stated with [quorum] on the observations the implementation accepted in the
+   three rounds (aos1, aos2, aos3), h = the harness's keccak table.
+   (iii): the token bytes at mm's position were reported, ready, slot by slot, by f_k + 1 oracles at mm's OWN sequence
+   number (the exact form of C07_token_data_cycle) - the only alternative whenever the agreed commit data x carried no
+   token data - or, when x did carry token data, they are an entry x carried or the agreed entry of some sequence number
+   of x's interval (the two alternatives of C07_used_needs_quorum_cycle).  Before the repair of the executable test
+   (C07_judge_sys_tokens_before_false_alarm below) the exact form was demanded unconditionally. *)
 Theorem C07_judge_sys_sound :
   forall (g : SysK.scfg) (prev : outcome) (rs : list SysK.sround_in) (o : SysK.sys_out),
   SysK.sys_safe (g, prev, rs) o = true ->
@@ -544,9 +549,16 @@ Theorem C07_judge_sys_sound :
          xm_msg xm = mm /\ In (r_src r, fk) fc2 /\ quorum (xmsgs_of (r_src r)) (f_plus_1 fk) aos2 xm /\
          length (r_msgs r) = length (r_td r) /\
          (forall p, nth_error (r_msgs r) p = Some mm ->
-            exists bytes f, nth_error (r_td r) p = Some bytes /\ alookup (r_src r) fc2 = Some f /\
-              forall n d, nth_error bytes n = Some d ->
-                quorum (xtok_of (r_src r) (ExecReport.m_seq mm) n) (f_plus_1 f) aos2 (EM.mkTok true d)) /\
+            exists bytes, nth_error (r_td r) p = Some bytes /\
+              ((exists f, alookup (r_src r) fc2 = Some f /\
+                  forall n d, nth_error bytes n = Some d ->
+                    quorum (xtok_of (r_src r) (ExecReport.m_seq mm) n) (f_plus_1 f) aos2 (EM.mkTok true d)) \/
+               (c_td (xc_cd x) <> [] /\
+                ((exists td, In td (c_td (xc_cd x)) /\ td_ready td = true /\ td_bytes td = bytes) \/
+                 exists s', PS.in_range (c_start (xc_cd x)) (c_end (xc_cd x)) s' = true /\
+                   exists f, alookup (r_src r) fc2 = Some f /\
+                     forall n d, nth_error bytes n = Some d ->
+                       quorum (xtok_of (r_src r) s' n) (f_plus_1 f) aos2 (EM.mkTok true d))))) /\
          (forall rs', NoDup rs' ->
             (forall o', In o' rs' -> exists ob, In (o', ob) aos2 /\ In (ExecReport.m_id mm) (so_costly ob)) ->
             (Z.of_nat (length rs') < EM.f_dest dest fc2 + 1)%Z)) /\
@@ -587,10 +599,9 @@ Print Assumptions C07_judge_sys_noclass_sound.
 
 (* (a), partial - the f+1 clause tests: in a cycle of the MODEL (hypotheses of C07_used_needs_quorum_cycle and of
    C07_token_data_cycle; fChain a Go map with f >= 0) every message of the Filter report passes the boolean tests of
-   (i), (c) + interval, (ii), (iii), not-costly and (iv) that [sys_safe] evaluates.  Not proved for the model in general:
-   the wiring of [sys_safe] around these tests (owns / reverify against C08's builder, positions in the report, the nonce
-   order of nonces_walk, the walk over arbitrary histories) and the two ground-truth clauses, which are statements about
-   the harness's world; on a concrete cycle the whole of sys_judge / sys_judge_noclass passes: C07_judge_sys_model_passes_example. *)
+   (i), (c) + interval, (ii), (iii) in the exact form, not-costly and (iv) that [sys_safe] evaluates.  Kept for the converse
+   lemmas it rests on; SUPERSEDED by C07_judge_sys_model_passes at the end of this file, which proves (a) for the whole walk
+   of [sys_safe] (wiring, positions, nonce order, histories) without the hypothesis on token data. *)
 Theorem C07_judge_sys_model_passes_partial :
   forall (hash : N -> N -> N) (zero : N) (leaf_hash : ExecReport.msg -> option N) (enc_size : creport -> option N)
          (tree_gas : N -> N) (max_size max_gas : N) (nonce_key : EM.nonce_t -> N)
@@ -636,3 +647,142 @@ Theorem C07_judge_sys_model_passes_example :
                  end) (SysK.sys_model JSX.SysCase.i) = [[]; []; [[5; 6]]]%N.
 Proof. exact JSX.SysCase.sys_case_passes. Qed.
 Print Assumptions C07_judge_sys_model_passes_example.
+
+(* ---- (a) for sys_safe IN GENERAL, and the decision on the flagged token test ---- *)
+Require Verif.Proofs.JudgeSoundExecSysAP.
+Module JSXA := Verif.Proofs.JudgeSoundExecSysAP.
+
+(* (a), general: for EVERY case whose cycle starts with a GetCommitReports round (previous outcome Unknown, Initialized
+   or a Filter outcome: how the harness cuts its histories into cases) and whose rounds are well formed - distinct
+   oracle ids; fChain a Go map (unique keys) with 0 <= f < 2^32; the observations the validation accepts are decoded Go
+   maps (unique keys at every level), their item ids determine the items (the id is the sha3 of the item's rendering),
+   the intervals of observed commit reports are uint64 pairs spanning at most 256 sequence numbers (the verifier's
+   limit, C08_provable), observed nonces are uint64 values: all facts about Go values the harness prints - and that lies
+   outside the recorded class F14 of C08 (JSXA.sys_drop: some Filter round of the model's run drops a ready sequenced
+   message in the size / gas fallback, the class in which C08_nonce_order is refuted), the model's own history
+   [sys_model i] passes the whole walk of [sys_safe]: carried, owns / reverify against C08's builder, (i) with the
+   interval, (c), (ii), (iii), not-costly, positions in the report, and nonces_walk incl. its order clause ("first
+   sequenced message carries the agreed nonce + 1, later ones larger") over histories of any length with failed rounds
+   anywhere.  Hence on the model's own history [sys_safe] IS its ground-truth clause [noreexec_ok] - a statement about
+   the harness's world (s_executed), not about the model: C07_judge_sys_ground_truth_open. *)
+Theorem C07_judge_sys_model_passes :
+  forall (g : SysK.scfg) (prev : outcome) (rs : list SysK.sround_in),
+  PS.exec_next (o_state prev) = Ok 2%N ->
+  Forall (fun r : SysK.sround_in =>
+     NoDup (map (fun a => fst (fst a)) (snd r)) /\
+     (NoDup (EM.keys (fst r)) /\ forall k f, In (k, f) (fst r) -> (0 <= f < 4294967296)%Z) /\
+     ((forall o ob, In (o, ob) (SysK.accepted (SysK.verdicts g r) (snd r)) -> EMP.wf_obs (to_obs ob)) /\
+      key_functional (SysK.accepted (SysK.verdicts g r) (snd r)) /\
+      (forall o ob k x, In (o, ob) (SysK.accepted (SysK.verdicts g r) (snd r)) -> In x (xcommits_of k ob) ->
+         (c_start (xc_cd x) < two64)%N /\ (c_end (xc_cd x) < two64)%N /\ (c_end (xc_cd x) - c_start (xc_cd x) < 256)%N) /\
+      (forall o ob t, In (o, ob) (SysK.accepted (SysK.verdicts g r) (snd r)) -> In t (xnonces_of ob) ->
+         (snd t < two64)%N))) rs ->
+  JSXA.sys_drop (g, prev, rs) = false ->
+  SysK.walk g (Verif.Check.C08_check.thash (Verif.Check.C08_check.mk_htable (SysK.s_table g))) prev None None rs
+            (SysK.sys_model (g, prev, rs)) = true /\
+  SysK.sys_safe (g, prev, rs) (SysK.sys_model (g, prev, rs)) = SysK.noreexec_ok g (SysK.sys_model (g, prev, rs)).
+Proof.
+  exact (fun g prev rs H1 H2 H3 =>
+           conj (JSXA.sys_walk_model_passes g prev rs (conj H1 H2) H3) (JSXA.sys_safe_model (g, prev, rs) (conj H1 H2) H3)).
+Qed.
+Print Assumptions C07_judge_sys_model_passes.
+
+(* the premises are decidable on a case (JSXA.sys_wfb), hold on two concrete cycles (one deviating oracle per round;
+   agreed commit data that carry token data), which are outside the class and pass *)
+Theorem C07_judge_sys_model_passes_nonvacuous :
+  (forall i, JSXA.sys_wfb i = true -> JSXA.sys_wf i) /\
+  JSXA.sys_wf JSX.SysCase.i /\ JSXA.sys_drop JSX.SysCase.i = false /\
+  SysK.sys_safe JSX.SysCase.i (SysK.sys_model JSX.SysCase.i) = true /\
+  JSXA.sys_wf JSX.TokCase.i /\ JSXA.sys_drop JSX.TokCase.i = false /\
+  SysK.sys_safe JSX.TokCase.i (SysK.sys_model JSX.TokCase.i) = true.
+Proof. exact (conj JSXA.sys_wfb_sound JSXA.sys_wf_examples). Qed.
+Print Assumptions C07_judge_sys_model_passes_nonvacuous.
+
+(* DECISION on the flagged test [tokens_agreed] (clause (iii) in the exact form of C07_token_data_cycle, applied
+   unconditionally): the model's own output CAN fail it.  JSX.TokCase.i satisfies every premise of
+   C07_judge_sys_model_passes (previous theorem); f + 1 = 2 oracles report commit data that already carry token data
+   [(ready, 9)], the model's Filter round reports message 5 with token bytes [9] - carried by the agreed commit data,
+   as C07_used_needs_quorum_cycle allows, reported by nobody in the GetMessages round.  The judge as it was
+   (JSX.sys_safe_before) rejects the model's history, the repaired one (tokens_ok: the exact test, or - only when the
+   agreed commit data carry token data - an entry they carried / the agreed entry of a sequence number of their
+   interval) accepts it, and both judges return no code.  Today's generator cannot reach such a cycle (whenever its
+   "with-messages" version of a report gets f_dest + 1 votes so does the plain version, and dropConflictingReports drops
+   both): a counting property of its classes, not a structural guarantee. *)
+Theorem C07_judge_sys_tokens_before_false_alarm :
+  JSX.sys_safe_before JSX.TokCase.i (SysK.sys_model JSX.TokCase.i) = false /\
+  SysK.sys_safe JSX.TokCase.i (SysK.sys_model JSX.TokCase.i) = true /\
+  SysK.sys_judge [(JSX.TokCase.i, SysK.sys_model JSX.TokCase.i)] = [] /\
+  SysK.sys_judge_noclass [(JSX.TokCase.i, SysK.sys_model JSX.TokCase.i)] = [] /\
+  map (fun vo => match snd vo with
+                 | Ok o => map (fun r => (map ExecReport.m_seq (r_msgs r), r_td r)) (o_report o)
+                 | _ => []
+                 end) (SysK.sys_model JSX.TokCase.i) = [[]; []; [([5; 6], [[9]; []])]]%N /\
+  JSX.tokens_agreed_before SysEx.fc JSX.TokCase.aos2 1 5 [9%N] = false /\
+  SysK.tokens_ok SysEx.fc JSX.TokCase.aos2 (xc_cd JSX.TokCase.xt) 1 5 [9%N] = true /\
+  In [(true, 9%N)] (c_td (xc_cd JSX.TokCase.xt)).
+Proof. exact JSX.TokCase.tokens_agreed_before_false_alarm. Qed.
+Print Assumptions C07_judge_sys_tokens_before_false_alarm.
+
+(* (a) for the whole of [sys_safe], under the one assumption on the harness's world that its ground-truth clause needs:
+   whenever the case claims ground truth (s_live = true), in every round a commit report that f_dest + 1 accepted
+   observations agree on lists, as executed, every sequence number of its interval that the world shows as executed
+   (s_executed) - i.e. at least one of any f_dest + 1 agreeing oracles read the destination's current state.  Then the
+   model's own history passes sys_safe (premises otherwise as in C07_judge_sys_model_passes). *)
+Theorem C07_judge_sys_safe_model_passes_world :
+  forall (g : SysK.scfg) (prev : outcome) (rs : list SysK.sround_in),
+  PS.exec_next (o_state prev) = Ok 2%N ->
+  Forall (fun r : SysK.sround_in =>
+     NoDup (map (fun a => fst (fst a)) (snd r)) /\
+     (NoDup (EM.keys (fst r)) /\ forall k f, In (k, f) (fst r) -> (0 <= f < 4294967296)%Z) /\
+     ((forall o ob, In (o, ob) (SysK.accepted (SysK.verdicts g r) (snd r)) -> EMP.wf_obs (to_obs ob)) /\
+      key_functional (SysK.accepted (SysK.verdicts g r) (snd r)) /\
+      (forall o ob k x, In (o, ob) (SysK.accepted (SysK.verdicts g r) (snd r)) -> In x (xcommits_of k ob) ->
+         (c_start (xc_cd x) < two64)%N /\ (c_end (xc_cd x) < two64)%N /\ (c_end (xc_cd x) - c_start (xc_cd x) < 256)%N) /\
+      (forall o ob t, In (o, ob) (SysK.accepted (SysK.verdicts g r) (snd r)) -> In t (xnonces_of ob) ->
+         (snd t < two64)%N))) rs ->
+  JSXA.sys_drop (g, prev, rs) = false ->
+  (SysK.s_live g = true ->
+   Forall (fun r : SysK.sround_in =>
+     forall k x s,
+       quorum (xcommits_of k) (f_plus_1 (EM.f_dest (SysK.s_dest g) (fst r))) (SysK.accepted (SysK.verdicts g r) (snd r)) x ->
+       c_src (xc_cd x) = k -> PS.in_range (c_start (xc_cd x)) (c_end (xc_cd x)) s = true ->
+       In (k, s) (SysK.s_executed g) -> memN s (ExecReport.c_exec (xc_cd x)) = true) rs) ->
+  SysK.sys_safe (g, prev, rs) (SysK.sys_model (g, prev, rs)) = true.
+Proof. exact (fun g prev rs H1 H2 => JSXA.sys_safe_model_world g prev rs (conj H1 H2)). Qed.
+Print Assumptions C07_judge_sys_safe_model_passes_world.
+
+(* its hypotheses are satisfiable with a non-empty world: message (1, 5) executed, all four oracles report the commit
+   report with 5 in its executed list, the model's Filter round reports message 6 alone, sys_safe and sys_live pass *)
+Theorem C07_judge_sys_safe_model_passes_world_example :
+  JSXA.sys_wf JSXA.ExecCase.i /\ JSXA.sys_drop JSXA.ExecCase.i = false /\ SysK.s_live JSXA.ExecCase.gx = true /\
+  SysK.s_executed JSXA.ExecCase.gx = [(1, 5)]%N /\ Forall (JSXA.round_world JSXA.ExecCase.gx) JSXA.ExecCase.rounds /\
+  SysK.sys_safe JSXA.ExecCase.i (SysK.sys_model JSXA.ExecCase.i) = true /\
+  SysK.sys_live JSXA.ExecCase.i (SysK.sys_model JSXA.ExecCase.i) = true /\
+  map (fun vo => match snd vo with
+                 | Ok o => map (fun r => map ExecReport.m_seq (r_msgs r)) (o_report o)
+                 | _ => []
+                 end) (SysK.sys_model JSXA.ExecCase.i) = [[]; []; [[6]]]%N.
+Proof. exact JSXA.ExecCase.sys_safe_world_example. Qed.
+Print Assumptions C07_judge_sys_safe_model_passes_world_example.
+
+(* the two ground-truth clauses [noreexec_ok] (in sys_safe) and [sys_live] are NOT theorems about the model: they
+   compare the history with s_executed / s_expect, free fields of the case that hold what the harness's world shows.
+   On the rounds of SysCase (all premises of C07_judge_sys_model_passes hold, the walk passes) a world that shows
+   message (1, 5) as executed makes the model's own history fail noreexec_ok, and a world that expects a message (1, 7)
+   nobody observed makes it fail sys_live.  To prove them one must assume of the world: every (c, s) of s_executed is
+   listed as executed by every commit report covering s that f_dest + 1 accepted observations agree on (with it noreexec_ok
+   is proved: C07_judge_sys_safe_model_passes_world above), and, for sys_live, the hypotheses of C09_cycle_liveness for
+   every message of s_expect (f + 1 honest oracles with one view of the commit report, its messages, their token data and
+   nonces, outside F13e / F14; the report provable and within the limits) - not proved here: that theorem speaks about one
+   message of one cycle, sys_live about the last Filter outcome of a history. *)
+Theorem C07_judge_sys_ground_truth_open :
+  JSXA.sys_wf JSXA.WorldCase.i_exec /\ JSXA.sys_drop JSXA.WorldCase.i_exec = false /\
+  SysK.walk JSXA.WorldCase.g_exec JSX.SysCase.hh out_init None None JSXA.WorldCase.rounds
+            (SysK.sys_model JSXA.WorldCase.i_exec) = true /\
+  SysK.noreexec_ok JSXA.WorldCase.g_exec (SysK.sys_model JSXA.WorldCase.i_exec) = false /\
+  SysK.sys_safe JSXA.WorldCase.i_exec (SysK.sys_model JSXA.WorldCase.i_exec) = false /\
+  JSXA.sys_wf JSXA.WorldCase.i_more /\ JSXA.sys_drop JSXA.WorldCase.i_more = false /\
+  SysK.sys_safe JSXA.WorldCase.i_more (SysK.sys_model JSXA.WorldCase.i_more) = true /\
+  SysK.sys_live JSXA.WorldCase.i_more (SysK.sys_model JSXA.WorldCase.i_more) = false.
+Proof. exact JSXA.WorldCase.ground_truth_not_about_the_model. Qed.
+Print Assumptions C07_judge_sys_ground_truth_open.
